@@ -398,7 +398,8 @@ def export_plan(session: Any, uni: Optional[Universe] = None) -> Dict[str, Any]:
         else:
             r(st.uuid)
     for i, st in enumerate(plan):
-        d: Dict[str, Any] = {"sid": i, "req": sorted(r(u) for u in st.required_uuids)}
+        # req_order / tfs_order: the iteration order of the real set objects (what `for x in step.required_uuids` sees)
+        d: Dict[str, Any] = {"sid": i, "req": sorted(r(u) for u in st.required_uuids), "req_order": [r(u) for u in st.required_uuids]}
         if isinstance(st, FeatureGroupStep):
             feats = sorted(st.features.features, key=lambda f: r(f.uuid))
             d.update(kind="FG", uuids=[r(f.uuid) for f in feats],
@@ -407,7 +408,7 @@ def export_plan(session: Any, uni: Optional[Universe] = None) -> Dict[str, Any]:
                      requested=any(f.initial_requested_data for f in feats),
                      cfw=st.compute_framework.__name__,
                      children_if_root=sorted(r(u) for u in st.children_if_root),
-                     tfs_ids=sorted(r(u) for u in st.tfs_ids),
+                     tfs_ids=sorted(r(u) for u in st.tfs_ids), tfs_order=[r(u) for u in st.tfs_ids],
                      any_uuid=r(st.features.any_uuid) if st.features.any_uuid else None,
                      opts=[sorted((str(k), str(v)) for k, v in f.options.group.items()) for f in feats],
                      types=[f.data_type.name if f.data_type else None for f in feats])
@@ -424,7 +425,8 @@ def export_plan(session: Any, uni: Optional[Universe] = None) -> Dict[str, Any]:
             d.update(kind="TFS", uuids=[r(st.uuid)], from_cfw=st.from_framework.__name__, to_cfw=st.to_framework.__name__,
                      from_group=(uni.group_display(st.from_feature_group) if uni else st.from_feature_group.__name__),
                      to_group=(uni.group_display(st.to_feature_group) if uni else st.to_feature_group.__name__),
-                     link_id=r(st.link_id) if st.link_id else None, requested=False)
+                     link_id=r(st.link_id) if st.link_id else None, requested=False,
+                     right_uuid=r(st.right_framework_uuid) if st.right_framework_uuid else None)
         steps.append(d)
     return {"steps": steps, "n_uuids": len(ren), "_ren": ren}
 
